@@ -22,7 +22,12 @@ META = {
             "call / inside callbacks (no repo edits); every outcome it produces on small programs must be one the "
             "extracted model admits (exhaustive exploration per program); monitors check the property text itself "
             "(multiset conservation, no duplicate/invented value, real-time FIFO on stamped calls, exclusive payload "
-            "cells, justified try_ failures) on every run, including the compensating push_n/pop_n variants.",
+            "cells, justified try_ failures) on every run, including the compensating push_n/pop_n variants.  Client "
+            "programs may use every public overload: the forwarded template-argument lists of all wrappers are "
+            "regenerated, the model runs `lower` of each call (c01_entry_points_forward_flags: lower = the call as "
+            "written; c01_exclusive_any_entry, c01_exactly_once_any_entry), the harness calls value / pointer / "
+            "iterator overloads and the ones without template arguments; 'parked' programs keep a consumer / producer "
+            "inside its callback while an exclusive try_push_n / try_pop_n wraps the ring (conservation at quiescence).",
     "note": "All four schedule-quantified statements are theorems (c01_exclusive, c01_exactly_once incl. conservation at "
             "quiescence, c01_fifo_realtime, c01_try_fail_justified), proved for every usage_ok program / capacity 2^k / thread "
             "count / schedule from the ticket-interval invariant (coq/BQ/BQInv*.v), every theorem 'Closed under the global "
@@ -515,7 +520,11 @@ def run(prop, argv, meta_focus):
                        "n = capacity) + seeded random small ones over all modelled op kinds + bigger balanced "
                        "producer/consumer, try-mix (with drain), timed (also with a slow producer callback holding an unpublished index "
                        "while later ones are published) and compensating programs; flags always satisfy the "
-                       "documented pairing rules; strategies: uniform random, round-robin with random pre-emptions, PCT; "
+                       "documented pairing rules; two programs in five call the queue through all public overloads (value / "
+                       "pointer / iterator, with and without template arguments) instead of the callback ones only; "
+                       "'parked' programs: exclusive try_push_n / try_pop_n wrapping the ring while a counterpart stays "
+                       "inside its callback so that slots are released out of ticket order; "
+                       "strategies: uniform random, round-robin with random pre-emptions, PCT; "
                        "pre-emption at every atomic op / futex call / inside callbacks; distinct non-trivial = distinct "
                        "(program, observed outcome) pairs; small programs are explored exhaustively in the extracted model "
                        "and every implementation outcome (per-op counts and popped values; DSCHED-STUCK vs model #STUCK) "
